@@ -37,6 +37,7 @@ def plan(tier, seed):
     nchunks = 64 if tier == 'quick' else 256
     chunks = [{'kind': 'rules', 'R': R, 'V': V, 'mod': nchunks, 'rem': i, 'tier': tier} for i in range(nchunks)]
     nx = 5 if tier == 'quick' else 6
+    chunks += [{'kind': 'noncanon', 'mod': 8, 'rem': r, 'V': 5 if tier == 'quick' else 6} for r in range(8)]
     chunks += [{'kind': 'extracted', 'n': nx, 'mod': 16, 'rem': r} for r in range(16)]
     return {
         'chunks': chunks + [{'kind': 'clipipe-grammar'}],
@@ -234,6 +235,31 @@ def check_case(case):
         return check_rule(case['rank'], case['lin'], case['cfg'])
 
 
+def noncanonical(rank, lin):
+    """Well-formed rules outside the canonical form (they reach binarize through grammar files): every
+    permutation of the right-hand side, and one variable split into two adjacent variables of the same element."""
+    for perm in itertools.permutations(range(rank)):
+        if perm == tuple(range(rank)):
+            continue
+        inv = {old: new for new, old in enumerate(perm)}
+        yield tuple(tuple((inv[i], j) for (i, j) in arg) for arg in lin)
+    occ = [(a, k) for a, arg in enumerate(lin) for k in range(len(arg))]
+    for a, k in occ:
+        i, j = lin[a][k]
+        new = []
+        for a2, arg in enumerate(lin):
+            row = []
+            for k2, (i2, j2) in enumerate(arg):
+                if i2 == i and j2 > j:
+                    row.append((i2, j2 + 1))
+                elif (a2, k2) == (a, k):
+                    row.extend([(i, j), (i, j + 1)])
+                else:
+                    row.append((i2, j2))
+            new.append(tuple(row))
+        yield tuple(new)
+
+
 def run_chunk(chunk):
     if chunk.get('kind') == 'clipipe-grammar':
         from .. import clipipe
@@ -265,6 +291,30 @@ def run_chunk(chunk):
                             res.violation(v['kind'], v['where'], v['case'], v['detail'], v['what'])
             if mt is not None:
                 res.sample({'extracted_from': model.mt_str(mt.root), 'modes': cfgs})
+            return res
+        if chunk['kind'] == 'noncanon':
+            cfgs = [{'reordering': 'none', 'markov': None}, {'reordering': 'optimal', 'markov': None},
+                    {'reordering': 'none', 'markov': {'v': 1, 'h': 1, 'nofanout': False}},
+                    {'reordering': 'optimal', 'markov': {'v': 1, 'h': 2, 'nofanout': True}}]
+            last = None
+            k = 0
+            for rank, lin in lcfrs.canonical_lins(4, chunk['V']):
+                if rank < 3:
+                    continue
+                for lin2 in noncanonical(rank, lin):
+                    k += 1
+                    if k % chunk['mod'] != chunk['rem']:
+                        continue
+                    for cfg in cfgs:
+                        vs = check_rule(rank, lin2, cfg)
+                        res.evals += 1
+                        res.nontrivial += 1
+                        res.outcome((lin2, repr(cfg), len(vs)))
+                        for v in vs:
+                            res.violation(v['kind'], v['where'], v['case'], v['detail'], v['what'])
+                    last = {'rule': 'A -> ' + ' '.join('B%d' % i for i in range(rank)), 'linearization': repr(lin2)}
+            if last:
+                res.sample(last)
             return res
         cfgs = configs(chunk['tier'])
         last = None
